@@ -35,8 +35,9 @@ var propConfigs = map[string]*propConfig{
 	"C14": {extra: sweepBrokerWrites, undecided: "that the broker's TCP connection is closed on every session end (close is in run's deferred function, outside the step contracts); only what is written before the close is decided"},
 	"C23": {extra: sweepDatagramSenders, undecided: "datagrams written by anything other than snSend / Client.send (the DTLS layer below them); Pack of packet types neither side sends"},
 	"C24": {extra: sweepSendScope, undecided: "byte-level serialisation of the packet (paho's Write, trusted A-PAHO); UTF-8 well-formedness and the U+0000 ban of MQTT strings; validity of predefined topic names from the configuration (A-CFG)"},
+	"C33": {undecided: "the timing half: that a PINGREQ is sent at least once per KeepAlive period while active (ticker, elapsed time: A-TIMER); interleavings inside one loop iteration (between the state check and the send: A-ATOMIC); that no other API call can fail because of a ping in progress, beyond the clause that an abandoned ping does not end the client"},
 	"C32": {undecided: "that gateway and client really run with the same configuration (the property's premise); the composition itself is the observation that both sides' contracts resolve a predefined ID with the same specification function nameSpec(configuration, client ID, ID) and a short ID with the proved two-octet coding"},
-	"C13": {undecided: "the time bound (connection poll interval plus pending send); goroutines not in the session's errgroup (per-exchange watcher goroutines and timers end on context cancellation: not decided); that a cause reaches the errgroup (the receive loops are not under contract: A-RECVLOOP)"},
+	"C13": {undecided: "the time bound (connection poll interval plus pending send); goroutines not in the session's errgroup (per-exchange watcher goroutines and timers end on context cancellation: not decided); that every cause reaches the errgroup: decided for a failing step (receive loops under contract), not for a silent peer"},
 	"C15": {pkgAll: "gateway.", extra: sweepIsolation, undecided: "the UDP/DTLS demultiplexer (pion) that maps peer addresses to connections; writes through slices aliasing shared configuration data (A-APPEND); timing interference (shared CPU, shared broker)"},
 	"C30": {undecided: "what the YAML decoder and the option parser's loop compute (A-YAML, A-PARSE); the tools' flag plumbing through urfave/cli (A-CLI)"},
 	"C31": {extra: sweepAuthOnlyInConnect, undecided: "flag and environment-variable resolution inside urfave/cli (A-CLI); DTLS itself"},
@@ -136,7 +137,7 @@ func (pc *propConfig) run(prop string, g *G, idx funcIndex, cs *contractSet, out
 				// obligations its proof rests on whatever they are tagged
 				// with: callee preconditions at call sites, loop and Range
 				// invariants, frames, site assertions, lock coverage
-				structural := o.Kind == "pre" || o.Kind == "inv" || o.Kind == "frame" || o.Kind == "assert" || o.Kind == "lock"
+				structural := o.Kind == "pre" || o.Kind == "inv" || o.Kind == "frame" || o.Kind == "assert" || o.Kind == "lock" || o.Kind == "stable"
 				if len(o.Tags) == 0 || hasTag(o.Tags, prop) || structural {
 					all = append(all, o)
 				}
